@@ -128,9 +128,17 @@ fn stamp_sites(out: &mut Out) {
         };
         let lib = non_test(&src);
         let lib = match lib.find("#[cfg(kani)]") { Some(i) => &lib[..i], None => lib };
-        let got = lib.lines().filter(|l| !l.trim_start().starts_with("//")).map(|l| l.matches(pat).count()).sum::<usize>();
+        // code only: whole-line and trailing `//` comments do not count (a comment that mentions
+        // `clock.tick()` is not a stamp site)
+        let got = lib.lines().map(|l| l.split("//").next().unwrap_or("")).map(|l| l.matches(pat).count()).sum::<usize>();
         rows.push(json!({"file": file, "pattern": pat, "sites": got, "model": op}));
-        if got != want {
+        if got < want {
+            // FEWER textual sites than the table: call sites were folded into a helper (or a site was
+            // removed — then the stamps themselves differ and the correspondence says so); nothing
+            // new can reach the property undriven
+            out.count(&format!("stamp-sites:fewer-than-table:{}:{}", file.rsplit('/').next().unwrap_or(file), pat.trim()));
+        }
+        if got > want {
             out.violation(
                 &format!("C08:coverage:stamp-site-not-modelled:{}:{}", file.rsplit('/').next().unwrap_or(file), pat.trim()),
                 "the number of places that create / advance a Lamport stamp differs from the op table of the model: a new site must get a model op (or the table must say why not)",
@@ -282,7 +290,13 @@ fn audit() -> serde_json::Value {
       {"class": 8, "topic": "node-global state", "covered": "the shard's Lamport clock is shared by all its keys: keys of one shard and of different shards; the vector clock in causal mode", "open": ""},
       {"class": 9, "topic": "observations", "covered": "the stamp of every delta handed back, full snapshots, what a peer holding everything serves after merging the post-restart write, that non-writing mailbox messages leave the replication state alone", "open": ""},
       {"class": 10, "topic": "finding signatures", "covered": "stale stamps are signed by the provenance of the stamp that was not exceeded (local / remote / recovered-checkpoint / recovered-delta); the overflow finding fires only in the boundary case", "open": ""},
-      {"class": 11, "topic": "harness fragility", "covered": "coverage counters must be positive in the run that claims them; source scans that fail or come out short are violations; the arithmetic of the build (checked / wrapping) is observed, not assumed", "open": ""}
+      {"class": 11, "topic": "harness fragility", "covered": "coverage counters must be positive in the run that claims them; source scans that fail or come out short are violations; the arithmetic of the build (checked / wrapping) is observed, not assumed; session 4: the stamp-site scan counts code only (comments stripped) and fails only for MORE sites than the model's table (fewer = call sites folded into a private helper); a persistent server that does not start, does not answer, or whose persisted state cannot be read back is a violation of its own", "open": ""},
+      {"class": "session-4", "topic": "what session 4 added",
+       "covered": "entry path: main() of bin/server_persistent.rs — compiled from its source text as the harness binary rvpersist and run as a child process: three incarnations over the same data / WAL directories (SIGKILL, SIGINT, SIGKILL), RESP writes with unique payloads, stamps read back from the WAL (WalRotator::recover_all_entries → to_delta) and the object store (RecoveryManager::recover), per-shard monotonicity across both restarts; history shapes: segment flushed / not flushed before the crash, a 300-write run, the object store lost after the first incarnation (recovery from the WAL alone: every entry replayed once, no +1-per-replay slack), recovery in TWO apply_recovered_state calls with an overlapping WAL part in the system histories; comparisons: remote stamps at 2^31, 2^32±1, 2^53, 2^63 and around a large clock",
+       "open": "the gossip listener / gossip loop of the binary (replication is off in the boot histories); S3 store"},
+      {"class": "session-4-selftest", "topic": "mutations / harmless rewrites tried on a private clone",
+       "covered": "MISSED BEFORE, caught now: server_persistent skips the WAL replay when segments were loaded (C08:boot:stamp-not-increasing:across-restart); WAL replay capped at the first 256 entries (same signature, needs the 300-write run + WAL-only recovery: with the object store present the +1-per-replayed-entry inflation of `update` masks a lost tail); LamportClock::update truncating to 32 bits (C08:stale-stamp:after-remote / after-recovered-delta at 2^32). Caught before and now: SET in causal mode does not tick (C08:issued-not-increasing; also C07:reach:tie-inconsistent), SET of the stored value issues no stamp (C08:stale-stamp:*), saturating tick (stamp-site scan + KU disagreement). Harmless rewrites (must stay quiet): tick folded into a private helper, comments mentioning clock.tick() / `.time =`, match arms of try_merge reordered, log lines, a private fn renamed, a new pub fn on ShardReplicaState, locals renamed in apply_recovered_state and in main — BEFORE: 3 false alarms of the stamp-site scan; AFTER: exit 0",
+       "open": ""}
     ])
 }
 
@@ -333,10 +347,12 @@ pub fn run(a: &Args) {
         // the production start-up sequence end to end: the binary's own `main`, as a child process
         // (two restarts per history; quick: one history ending its 2nd incarnation gracefully, one by
         // SIGKILL; thorough: more)
-        let boots = if a.tier == "thorough" { 8 } else { 2 };
+        // quick: (graceful 2nd shutdown, object store + WAL), (SIGKILL + 300-write run, object store + WAL),
+        // (SIGKILL + 300-write run, then the object store is lost: recovery from the WAL alone, every entry replayed exactly once)
+        let boots = if a.tier == "thorough" { 9 } else { 3 };
         for b in 0..boots {
             let mut r = rng.fork();
-            crate::c08boot::boot_history(&mut out, &mut r, b % 2 == 0).await;
+            crate::c08boot::boot_history(&mut out, &mut r, b % 3 == 0, b % 3 == 2).await;
         }
     });
     out.count_n("remote:stamp-at-integer-width-boundary(2^31,2^32,2^53,2^63)", EDGE_DRAWN.load(std::sync::atomic::Ordering::Relaxed));
